@@ -96,6 +96,8 @@ type World struct {
 	R         *RelState
 	PendingVoted  int
 	PendingHashes int
+	JunkVotes     int
+	Tainted       bool
 	Seen      map[string]bool
 	InitReq   *abci.RequestInitChain
 	Trace     bool
